@@ -168,6 +168,13 @@ MUTATIONS += [
     dict(id="C08-fold-packsize-no-length-field", prop="C08", file=PFILE, old="            constants::COMP_OVERHEAD + constants::LENGTH_LEN,\n            |acc, blob|", new="            constants::COMP_OVERHEAD,\n            |acc, blob|"),
 ]
 
+# ---- C18 -> C06: ChunkIter::from_config
+CHF = "crates/core/src/chunker.rs"
+MUTATIONS += [
+    dict(id="C18-fromconfig-min-max-swapped", prop="C18", file=CHF, old="                    config.chunk_min_size(),\n                    config.chunk_max_size(),", new="                    config.chunk_max_size(),\n                    config.chunk_min_size(),"),
+    dict(id="C18-fromconfig-fixed-uses-min", prop="C18", file=CHF, old="            Chunker::FixedSize => Self::FixedSize(FixedSizeChunkIter::new(\n                config.chunk_size(),", new="            Chunker::FixedSize => Self::FixedSize(FixedSizeChunkIter::new(\n                config.chunk_min_size(),"),
+]
+
 HARMLESS = [
     dict(id="H-C05-trees-symlink-continue", prop="C05", file=CK, old="        for node in tree.nodes {\n            match node.node_type {", new="        for node in tree.nodes {\n            if node.node_type == NodeType::Symlink {\n                continue;\n            }\n            match node.node_type {"),
 ]
